@@ -223,6 +223,17 @@ func main() {
 		})
 	}
 
+	// analyzeDefaultResponse calls addHeaderEnum
+	defaultHeaderEnums := false
+	if fd := root.fn("analyzeDefaultResponse"); fd != nil {
+		ast.Inspect(fd.Body, func(n ast.Node) bool {
+			if c, ok := n.(*ast.CallExpr); ok && calleeName(c) == "addHeaderEnum" {
+				defaultHeaderEnums = true
+			}
+			return true
+		})
+	}
+
 	var b bytes.Buffer
 	b.WriteString("import Verif.Model.Facts\n")
 	b.WriteString("-- GENERATED by /verif/harness/cmd/extract from /repo's working tree; do not edit.\n\n")
@@ -234,6 +245,7 @@ func main() {
 		pairs[i] = fmt.Sprintf("(%s, %s)", leanStr(p[0]), leanStr(p[1]))
 	}
 	fmt.Fprintf(&b, "  analyzerMethods := [%s]\n", strings.Join(pairs, ", "))
+	fmt.Fprintf(&b, "  defaultHeaderEnums := %v\n", defaultHeaderEnums)
 	fmt.Fprintf(&b, "  mixinMethods := %s\n", leanStrList(mixinMethods))
 	fmt.Fprintf(&b, "  mixinSkipsEmptyIDs := %v\n", mixinSkipsEmptyIDs)
 	fmt.Fprintf(&b, "  mixinExtDocsGuard := %v\n", mixinExtDocsGuard)
